@@ -304,6 +304,11 @@ class SpecModel:
             ("typing", "Any"): ANY,
             ("typing", "Union"): ExternalV("typing.Union"),
             ("enum", "IntEnum"): ExternalV("enum.IntEnum"),
+            ("enum", "IntFlag"): ExternalV("enum.IntFlag"),
+            ("functools", "reduce"): ExternalV("functools.reduce"),
+            ("operator", "or_"): ExternalV("operator.or_"),
+            ("operator", "and_"): ExternalV("operator.and_"),
+            ("operator", "add"): ExternalV("operator.add"),
             ("enum", "auto"): ExternalV("enum.auto"),
             ("collections", "defaultdict"): ExternalV("collections.defaultdict"),
             ("functools", "lru_cache"): ExternalV("functools.lru_cache"),
@@ -388,15 +393,16 @@ class SpecModel:
                 continue
             else:
                 self.skipped.append((mod.name, stmt.lineno, "class body: " + norm(stmt).split("\n")[0][:60]))
-        # IntEnum
-        if any(isinstance(b, ExternalV) and b.name == "enum.IntEnum" for b in bases):
-            cls.kind = "intenum"
+        # IntEnum / IntFlag (auto() counts 1, 2, 3 ... / 1, 2, 4 ...)
+        flag = any(isinstance(b, ExternalV) and b.name == "enum.IntFlag" for b in bases)
+        if flag or any(isinstance(b, ExternalV) and b.name == "enum.IntEnum" for b in bases):
+            cls.kind = "intflag" if flag else "intenum"
             n = 0
             for k, v in list(cls.ns.items()):
                 if k.startswith("_") or isinstance(v, FuncV):
                     continue
                 if isinstance(v, ExternalV) and v.name == "enum.auto()":
-                    n += 1
+                    n = (1 << n.bit_length()) if flag else n + 1
                 elif isinstance(v, int):
                     n = v
                 else:
@@ -485,6 +491,7 @@ class SpecModel:
         for k, v in self.public_non_routine(new):
             if isinstance(v, EnumMember):
                 cand = EnumMember(new, k, v.value, v.algtypes)
+                cand.algobj = getattr(v, "algobj", None)
             elif isinstance(v, NamedRangeV):
                 # real code: isinstance(attr_value, range) is False for an already wrapped
                 # NamedRange -> cls(value=NamedRange) ; only reachable through filter()
@@ -493,6 +500,7 @@ class SpecModel:
                 cand = NamedRangeV(new, k, v.start, v.stop)
             elif isinstance(v, AlgValueV):
                 cand = EnumMember(new, k, v.value, v.types)
+                cand.algobj = v   # (the wrapped object itself: what its own __init__ stored on it is read from there)
             elif isinstance(v, bool) or not isinstance(v, int):
                 raise AnalysisError(
                     f"{cls.module.relpath}: enum {cls.name}.{k} has unmodelled value {v!r}"
@@ -649,14 +657,21 @@ class SpecModel:
             return Opaque(f"module attr {base.name}.{attr}")
         if isinstance(base, EnumMember):
             if attr == "_value":
+                if getattr(base, "algobj", None) is not None:
+                    return base.algobj
                 return AlgValueV(base.value, base.algtypes) if base.algtypes is not None else base.value
             if attr == "_name":
                 return base.name
         if isinstance(base, AlgValueV):
+            if attr in getattr(base, "attrs", {}):
+                return base.attrs[attr]
             if attr == "_types":
                 return TupleV(list(base.types))
             if attr == "_value":
                 return base.value
+            prop = self.property_of("AlgValue", attr)
+            if prop is not None:
+                return self.call_value(prop, [base], prop.module)
         if isinstance(base, NamedRangeV):
             return BoundV(attr, base)
         if isinstance(base, ExternalV):
@@ -680,8 +695,13 @@ class SpecModel:
         if isinstance(f, ClassV):
             if f.name == "AlgValue":
                 if args and as_int(args[0]) is not None:
-                    return AlgValueV(as_int(args[0]), args[1:])
+                    inst = AlgValueV(as_int(args[0]), args[1:])
+                    self.run_init(f, inst, args, kwargs)
+                    return inst
                 return Opaque("AlgValue(non-int)")
+            if getattr(f, "kind", None) in ("intenum", "intflag") and len(args) == 1 and as_int(args[0]) is not None and not kwargs:
+                hit = [m_ for m_ in f.ns.values() if isinstance(m_, IntEnumMember) and m_.value == as_int(args[0])]
+                return hit[0] if hit else as_int(args[0])   # (a combination of flags is kept as its number)
             if f.name == "ValidValues":
                 return ValidValuesV(args, node)
             return Opaque(f"instance of {f.name}")
@@ -711,6 +731,25 @@ class SpecModel:
                     else:
                         return Opaque("map of an unmodelled callable")
                 return TupleV(out)
+            if f.name == "functools.reduce" and len(args) in (2, 3) and not kwargs and isinstance(args[1], TupleV):
+                fn_, items = args[0], list(args[1].items)
+                if len(args) == 3:
+                    acc = args[2]
+                elif items:
+                    acc, items = items[0], items[1:]
+                else:
+                    return Opaque("reduce() of an empty sequence")
+                for x in items:
+                    if isinstance(fn_, ExternalV) and fn_.name in ("operator.or_", "operator.and_", "operator.add"):
+                        a_, b_ = as_int(acc), as_int(x)
+                        if a_ is None or b_ is None:
+                            return Opaque("reduce over non-integers")
+                        acc = a_ | b_ if fn_.name.endswith("or_") else a_ & b_ if fn_.name.endswith("and_") else a_ + b_
+                    elif isinstance(fn_, (FuncV, LambdaV)):
+                        acc = self.call_value(fn_, [acc, x], mod)
+                    else:
+                        return Opaque("reduce of an unmodelled callable")
+                return acc
             if f.name == "itertools.islice" and len(args) == 2 and as_int(args[1]) is not None and not kwargs:
                 n_ = as_int(args[1])
                 src = args[0]
@@ -804,6 +843,41 @@ class SpecModel:
             r = self.exec_body(body, env, f.module)
             return r[1] if r is not None else None
         return Opaque("call of non-function")
+
+    def run_init(self, cls, inst, args, kwargs):
+        """bind what the class's own __init__ stores on the instance (`self.x = <expr over the arguments>`), so that the model
+        of an AlgValue follows its definition instead of assuming one"""
+        ini = cls.ns.get("__init__")
+        inst.attrs = {}
+        if not isinstance(ini, FuncV):
+            return
+        a = ini.node.args
+        names = [x.arg for x in a.args]
+        env = dict(self.envs.get(ini.module.name, {}))
+        env[names[0]] = inst
+        for nm_, v_ in zip(names[1:], args):
+            env[nm_] = v_
+        if a.vararg:
+            env[a.vararg.arg] = TupleV(list(args[len(names) - 1:]))
+        for k_, v_ in (kwargs or {}).items():
+            env[k_] = v_
+        for st in ini.node.body:
+            if isinstance(st, ast.Assign) and len(st.targets) == 1 and isinstance(st.targets[0], ast.Attribute) \
+                    and isinstance(st.targets[0].value, ast.Name) and st.targets[0].value.id == names[0]:
+                inst.attrs[st.targets[0].attr] = self._eval(st.value, env, ini.module, None)
+        # the two attributes the rest of the model reads directly keep their meaning
+        if "_value" in inst.attrs and as_int(inst.attrs["_value"]) is not None:
+            inst.value = as_int(inst.attrs["_value"])
+        inst.attrs.pop("_value", None)
+
+    def property_of(self, clsname, attr):
+        for env in self.envs.values():
+            c = env.get(clsname)
+            if isinstance(c, ClassV) and c.name == clsname:
+                f = c.ns.get(attr)
+                if isinstance(f, FuncV) and any(norm(d) == "property" for d in f.node.decorator_list):
+                    return f
+        return None
 
     def exec_body(self, stmts, env, mod, self_cls=None):
         """run the statements of a small table-building function / class hook: name bindings, `cls.attr = value`, if / else on
